@@ -422,6 +422,8 @@ func runBatch(p Property, o DriveOpts, agg *Agg, sp batchSpec, proc int, race bo
 			} else {
 				agg.AddInconclusive(fmt.Sprintf("case %d hangs outside the library", idx))
 			}
+		case strings.Contains(tail1, "MEMORY-CAP exceeded"):
+			agg.AddViolation(idx, "call consumes memory without bound (memory cap hit twice, also in isolation): unbounded recursion or allocation", map[string]any{"case": idx, "output_tail": tail1})
 		default:
 			agg.AddViolation(idx, "worker process died while executing this case (fatal error / unrecoverable panic)", map[string]any{"case": idx, "output_tail": tail1, "first_output_tail": tail})
 		}
